@@ -1,4 +1,5 @@
 import BR.Lemmas.ConcDir
+import BR.Lemmas.ConcKeep
 import BR.Props.C05
 /-!
 # C07 — concurrent requests see whole values and never corrupt index or accounting (partial)
@@ -16,6 +17,11 @@ being corrupted at arbitrary moments.  For **every schedule** (any list of steps
 * `acked_upload_is_indexed`, `indexed_entry_is_served` — a successful commit leaves the key indexed
   with the uploaded item (when it fits next to the other reservations), and a lookup of an indexed
   key whose file is intact returns that file's complete content;
+* `acked_entry_kept`, `stale_reader_cannot_drop` — an indexed value stays indexed (and a lookup finds
+  it) across every schedule whose steps are *quiet* for it: everything except the space-making steps
+  of uploads (`Reserve`, `commit`: eviction under pressure, overwrite of the key) and the removal by a
+  reader that failed to decode this very file; in particular a reader that failed on an older file
+  of the key cannot drop the value (finding F23);
 * `read_whole_value` — every read that returns data returns the complete bytes of one upload to the
   same key whose file had been completely written (never a torn, mixed or truncated value);
 * `step_total` — every BR.Conc.step is a total function of the state: no schedule blocks a request
@@ -192,6 +198,39 @@ theorem indexed_entry_is_served (M H : Int) (h0 : 0 ≤ M) (h1 : M < 92233720368
   simp only [setGet, hfo, openResult, hnc, Bool.false_eq_true, if_false]
   simp [hj]
 
+/-- **an acknowledged value stays until pressure, overwrite or its own corruption**: in every
+reachable state, a value indexed under `k` is still indexed, and found by a lookup, after any
+further schedule whose steps are quiet for it (`BR.Conc.quiet`): lookups, opens including the slow
+path, the background remover, corruption of any file, failed writes of other uploads and removals
+by readers that failed on *other* files all keep it.  Only `Reserve`/`commit` of an upload (eviction
+under space pressure, overwrite of the same key) and the removal by a reader that could not decode
+this very file are excluded. -/
+theorem acked_entry_kept (M H : Int) (h0 : 0 ≤ M) (h1 : M < 9223372036854775808) (puts : List (String × List Nat))
+    (gets : List String) (hpos : ∀ p ∈ puts, 0 < p.2.length) (sched rest : List Step) (k : String) (v : Item)
+    (hh : Holds (BR.Conc.run (initState M H puts gets) sched).lru k v)
+    (hq : quietSched v (BR.Conc.run (initState M H puts gets) sched) rest) :
+    ∃ e, find? (BR.Conc.run (BR.Conc.run (initState M H puts gets) sched) rest).lru k = some e ∧ e.val = v := by
+  obtain ⟨hc, hf⟩ := run_finv M H h0 h1 puts gets hpos sched
+  have hk := run_keeps _ rest hc hf hh hq
+  exact holds_find (run_inv _ rest hc).lru.toWf hk
+
+/-- **F23 as a theorem**: a reader that failed on a file with another temp suffix than the indexed
+value's (an older file of the key) does not remove the value when it finally runs its removal -/
+theorem stale_reader_cannot_drop (M H : Int) (h0 : 0 ≤ M) (h1 : M < 9223372036854775808) (puts : List (String × List Nat))
+    (gets : List String) (hpos : ∀ p ∈ puts, 0 < p.2.length) (sched : List Step) (k : String) (v : Item) (j : Nat) (g : GetT) (e : Elem)
+    (hh : Holds (BR.Conc.run (initState M H puts gets) sched).lru k v)
+    (hg : (BR.Conc.run (initState M H puts gets) sched).gets[j]? = some g) (hpc : g.pc = .failed e)
+    (hne : e.val.random ≠ v.random) :
+    Holds (BR.Conc.step (BR.Conc.run (initState M H puts gets) sched) (.getRemove j)).lru k v := by
+  obtain ⟨hc, hf⟩ := run_finv M H h0 h1 puts gets hpos sched
+  refine step_keeps _ _ hc hf hh ?_
+  intro g' e' hg' hpc'
+  rw [hg] at hg'
+  cases hg'
+  rw [hpc] at hpc'
+  cases hpc'
+  exact hne
+
 /-- **every read returns a whole value**: under every schedule, with files being corrupted at any
 time, a read that returns data returns the complete bytes of one upload to the same key whose file
 had been written completely — never a torn, mixed, truncated or foreign value -/
@@ -247,6 +286,15 @@ def f23 : State := BR.Conc.run (initState 1073741824 0 [("cas/k", [1, 1]), ("cas
 
 example : (f23.gets.map (fun g => match g.pc with | .done r => r | _ => none)) = [none, none, some [1, 1]] := by decide
 
+/-- non-vacuity of `stale_reader_cannot_drop`: in the F23 schedule, just before the stale removal,
+the fresh upload's value is indexed and reader 1 holds a failed element of an older file -/
+def f23pre : State := BR.Conc.run (initState 1073741824 0 [("cas/k", [1, 1]), ("cas/k", [1, 1]), ("cas/k", [1, 1])] ["cas/k", "cas/k", "cas/k"])
+  [.putReserve 2, .putWrite 2 false, .putCommit 2, .getLookup 1, .corrupt "cas/k" (rndOf 2),
+   .putReserve 1, .putWrite 1 false, .putCommit 1, .getOpen 1,
+   .putReserve 0, .putWrite 0 false, .putCommit 0]
+example : (f23pre.lru.order.map (fun e => (e.key, e.val.random))) = [("cas/k", rndOf 0)] ∧
+    (f23pre.gets.map (fun g => match g.pc with | .failed e => e.val.random | _ => "")) = ["", rndOf 2, ""] := by decide
+
 #print axioms conc_accounting
 #print axioms conc_quiescent_accounting
 #print axioms read_whole_value
@@ -255,4 +303,6 @@ example : (f23.gets.map (fun g => match g.pc with | .done r => r | _ => none)) =
 #print axioms acked_upload_is_indexed
 #print axioms conc_quiescent_directory
 #print axioms put_step_keeps_identity
+#print axioms acked_entry_kept
+#print axioms stale_reader_cannot_drop
 end BR.Props.C07
